@@ -160,3 +160,47 @@ func Resolved(p ExprPred) ExprPred {
 	}
 	return func(c *Ctx, e ast.Expr) bool { return rec(c, e, 2) }
 }
+
+// Establishes reports whether every live return of helper h is reached with
+// fact established under spec (so a call to h can stand for the fact in its
+// caller): used to follow an obligation into an extracted helper.
+func Establishes(h *FuncInfo, spec *FlowSpec, fact Fact) bool {
+	if h == nil {
+		return false
+	}
+	fl := RunFlow(h, spec)
+	n := 0
+	for _, ret := range fl.G.Returns() {
+		if !fl.Live(ret) {
+			continue
+		}
+		n++
+		if !fl.In[ret].Has(fact) {
+			return false
+		}
+	}
+	return n > 0
+}
+
+// HelpersEstablishing lists the declared functions of f's package that f calls
+// and that establish fact on all their paths under spec.
+func HelpersEstablishing(f *FuncInfo, spec *FlowSpec, fact Fact) []string {
+	var out []string
+	seen := map[*types.Func]bool{}
+	ast.Inspect(f.Body(), func(x ast.Node) bool {
+		call, ok := x.(*ast.CallExpr)
+		if !ok {
+			return true
+		}
+		fn := Callee(f.Info(), call)
+		if fn == nil || seen[fn] || fn.Pkg() == nil || fn.Pkg() != f.Pkg.Types {
+			return true
+		}
+		seen[fn] = true
+		if h := f.W.FuncOf(fn); h != nil && h != f && Establishes(h, spec, fact) {
+			out = append(out, ShortName(fn))
+		}
+		return true
+	})
+	return out
+}
